@@ -65,7 +65,7 @@ func text(v []string) string {
 func buildCard(fs []Field) vcard.Card {
 	c := make(vcard.Card)
 	for _, f := range fs {
-		c.SetValue(f.N, text(f.V))
+		c.AddValue(f.N, text(f.V)) // a name may occur several times: one field each
 	}
 	return c
 }
@@ -231,7 +231,7 @@ func main() {
 					var ix int
 					fmt.Sscanf(r.Path, "/o/%d", &ix)
 					idx = append(idx, ix)
-					var ns []string
+					ns := []string{}
 					for name, fields := range r.Card {
 						ns = append(ns, name)
 						// every returned property carries the stored value
